@@ -11,6 +11,10 @@ import OsmoVerif.Lemmas.CodecErr
 namespace OsmoVerif.Props.C16
 open OsmoVerif OsmoVerif.Codec
 
+/-- a well-formed definition can be constructed (no `ProtocolError` from any `BitFieldSet.__init__`) -/
+theorem wf_constructs (d : EnvDef) (hw : WF d) : construct d = .ok () := by
+  simp only [construct, constructFields_of_fields d.fs (fun g _ => constructField_of_wf g) hw.1, if_true]
+
 /-! ## decoding the encoding of in-range values returns those values -/
 
 /-- `dec (enc v) = v`: an in-range value encodes, the encoding has the declared length, and decoding it
